@@ -94,8 +94,9 @@ def run_summary(stratum, seed, index, want_fp):
     from .engine import schedule_key
     from .simfs import FS
 
+    t0 = time.time()
     r = run_one(stratum, seed, index)
-    out = {"status": r.status, "stats": Counter(), "fs": dict(FS.counts), "steps": 0, "transitions": [],
+    out = {"wall": time.time() - t0, "status": r.status, "stats": Counter(), "fs": dict(FS.counts), "steps": 0, "transitions": [],
            "source": None, "length": 0, "faulted": False, "nontrivial": None, "fp": None, "sample": None,
            "violation": None, "ref": r.schedule.get("ref", "inproc")}  # fmt: skip
     if r.sim is None:
@@ -147,6 +148,7 @@ def run_chunk(task):
             out["harness"].append([stratum, index, str(e)])
             continue
         out["runs"] += 1
+        out["stats"]["cpu_s:" + stratum] += r["wall"]
         out["status"][r["status"]] += 1
         out["fs"].update(r["fs"])
         out["stats"].update(r["stats"])
@@ -441,20 +443,31 @@ def fingerprints_main(seed, spec, workers):
     return 0
 
 
-def cross_check_fingerprints(seed, spec, reference, hashseed="12345", workers=3):
-    """Run the same run indices in a fresh interpreter under another
-    PYTHONHASHSEED and worker count; returns (n_compared, mismatching keys)."""
+def start_cross_check(seed, spec, hashseed="12345", workers=3):
+    """Start re-executing the given run indices in a fresh interpreter under
+    another PYTHONHASHSEED and worker count (runs alongside the main batch)."""
     env = dict(os.environ)
     env["CHMPY_VERIF_HASHSEED"] = hashseed
     env["PYTHONHASHSEED"] = hashseed
     env["VERIF_SEED"] = str(seed)
-    p = subprocess.run(
+    return subprocess.Popen(
         [sys.executable, CHECK, "--fingerprints", spec, "--workers", str(workers)],
-        capture_output=True, text=True, env=env, timeout=3600,
+        stdout=subprocess.PIPE, stderr=subprocess.PIPE, text=True, env=env,
     )  # fmt: skip
-    if p.returncode != 0:
-        raise PoolFailure("fingerprint subprocess failed: " + p.stderr[-2000:])
-    other = json.loads(p.stdout.strip().splitlines()[-1])
+
+
+def cross_check_fingerprints(seed, spec, reference, hashseed="12345", workers=3, proc=None):
+    """Returns (n_compared, mismatching keys)."""
+    if proc is None:
+        proc = start_cross_check(seed, spec, hashseed, workers)
+    try:
+        out, err = proc.communicate(timeout=3600)
+    except subprocess.TimeoutExpired:
+        proc.kill()
+        raise
+    if proc.returncode != 0:
+        raise PoolFailure("fingerprint subprocess failed: " + err[-2000:])
+    other = json.loads(out.strip().splitlines()[-1])
     common = [k for k in other if k in reference]
     bad = sorted(k for k in common if reference[k] != other[k])
     return len(common), bad
@@ -489,7 +502,7 @@ def determinism_main(seed, workers):
 def quick_plan(seed, args):
     from . import gen
 
-    n_random = args.random_runs if args.random_runs is not None else 1000
+    n_random = args.random_runs if args.random_runs is not None else 900
     return [
         ("template", list(range(gen.N_TEMPLATES))),
         ("inject", list(range(gen.N_INJECT_TEMPLATES))),
@@ -535,6 +548,11 @@ def check_main(tier, seed, args):
                                      "schedule": schedule, "violation": res["violation"]})  # fmt: skip
     sweep_info = None
     det_info = None
+    # determinism cross-check: the same run indices, re-executed in a fresh
+    # interpreter under another hash seed and worker count, alongside the batch
+    det_spec = ("random:0:40,template:3:24:97,fork3:1:8:41,slowpairs:2:6:53" if tier == "quick"
+                else "random:0:120,template:3:60:37,fork3:1:16:23,slowpairs:2:12:31")
+    det_proc = start_cross_check(seed, det_spec, hashseed="12345", workers=2 if tier == "quick" else 4)
     try:
         with make_pool(workers) as pool:
             if tier == "quick":
@@ -553,15 +571,16 @@ def check_main(tier, seed, args):
     # 2. determinism cross-check on a sample of this batch's runs
     if not harness:
         try:
-            spec = "random:0:40,template:3:24:97" if tier == "quick" else "random:0:120,template:3:60:37"
             ref = {k: v for k, v in batch.fps.items()}
-            n, bad = cross_check_fingerprints(seed, spec, ref, hashseed="12345", workers=4 if tier == "quick" else 7)
+            n, bad = cross_check_fingerprints(seed, det_spec, ref, proc=det_proc)
             det_info = {"runs_reexecuted": n, "mismatches": len(bad), "other_PYTHONHASHSEED": "12345",
-                        "other_workers": 4 if tier == "quick" else 7, "this_workers": workers}  # fmt: skip
+                        "other_workers": 2 if tier == "quick" else 4, "this_workers": workers, "spec": det_spec}  # fmt: skip
             if bad:
                 harness.append("determinism cross-check failed for runs %s" % bad[:8])
         except (PoolFailure, subprocess.TimeoutExpired, ValueError) as e:
             harness.append("determinism cross-check could not run: %s" % e)
+    if det_proc.poll() is None:
+        det_proc.kill()
     wall = time.time() - t0
     if not args.no_evidence:
         write_evidence(tier, seed, batch, wall, workers, len(vlines), klines, det_info, sweep_info, harness, ops.classify_api())
@@ -596,8 +615,8 @@ def thorough_batch(pool, seed, args, batch):
     t0 = time.time()
     tasks = list(chunks("template", seed, range(gen.N_TEMPLATES), want_fp=True))
     tasks += list(chunks("inject", seed, range(gen.N_INJECT_TEMPLATES)))
-    tasks += list(chunks("slowpairs", seed, range(gen.N_SLOWPAIRS)))
-    tasks += list(chunks("fork3", seed, range(gen.N_FORK3)))
+    tasks += list(chunks("slowpairs", seed, range(gen.N_SLOWPAIRS), want_fp=True))
+    tasks += list(chunks("fork3", seed, range(gen.N_FORK3), want_fp=True))
     n_all = (gen.N_INJECT_TEMPLATES // len(gen.INJECT_NTH)) * gen.INJECT_ALL_CAP
     tasks += list(chunks("injectall", seed, range(n_all), size=CHUNK * 4))
     run_tasks(pool, tasks, batch, max_violating_chunks=60)
@@ -695,6 +714,7 @@ def write_evidence(tier, seed, batch, wall, workers, n_viol, klines, det_info, s
             "checked_pairs_equal_within_tolerance_but_not_bitwise": s["inexact_equal_pairs"],
             "inexact_by_query_and_reference_mode": pick("inexact:"),
             "runs_by_stratum": dict(batch.per_stratum),
+            "worker_seconds_by_stratum": {k: round(v, 1) for k, v in pick("cpu_s:").items()},
             "runs_by_status": dict(batch.status),
             "runs_with_injected_fault_or_raising_op": batch.faulted_runs,
             "runs_fault_free": batch.runs - batch.faulted_runs,
